@@ -814,11 +814,16 @@ def split_inline_box(context, box, position_x, max_x, bottom_space, skip_stack,
                 unicodedata.category(new_child.text[-1]) == 'Zs')
             new_position_x = new_child.position_x + new_child.margin_width()
 
-            overflow = new_position_x > max_x and not trailing_whitespace
+            # The end spacing of the box follows its last child.
+            child_max_x = max_x
+            if is_last_child and resume_at is None:
+                child_max_x -= end_spacing
+            overflow = (
+                new_position_x > child_max_x and not trailing_whitespace)
             if overflow and isinstance(new_child, boxes.InlineBox):
                 # Spaces at the end of the line don't make the box overflow.
                 hanging_width = hanging_spaces_width(context, new_child)
-                overflow = new_position_x - hanging_width > max_x
+                overflow = new_position_x - hanging_width > child_max_x
 
             if overflow:
                 previous_resume_at = _break_waiting_children(
